@@ -14,14 +14,23 @@ class FakeRouter:
         self.sent.append(msg)
 
 
-def make_driver(rule, init, rname="SW", hidden=None):
+def make_driver(rule, init, rname="SW", hidden=None, veto=False):
     from indi.device import Driver
     from indi.device.properties import Group, Switch, SwitchVector
     _n[0] += 1
     hidden = hidden or [False] * len(init)
     elems = {"s%d" % i: Switch("S%d" % i, default="On" if v else "Off", enabled=not hidden[i]) for i, v in enumerate(init)}
     vec = SwitchVector("SWV", rule=rule, elements=elems)
-    cls = type("SwDrv%d" % _n[0], (Driver,), {"name": rname, "main": Group("MAIN", vectors={"swv": vec})})
+    body = {"name": rname, "main": Group("MAIN", vectors={"swv": vec})}
+    if veto:
+        # the documented "ask the hardware, update on confirmation" pattern: the write is deferred, the property shown Busy
+        from indi.device.events import Write, on
+
+        def defer(self, event):
+            event.prevent_default = True
+            self.main.swv.state_ = "Busy"
+        body["defer"] = on(list(elems.values()), Write)(defer)
+    cls = type("SwDrv%d" % _n[0], (Driver,), body)
     router = FakeRouter()
     return cls(router=router), router
 
@@ -35,7 +44,7 @@ def run_case(c):
     from indi.message import NewSwitchVector, SetSwitchVector, IndiMessage
     from indi.message.one_parts import OneSwitch
     hidden = c.get("hidden")
-    drv, router = make_driver(c["rule"], c["init"], hidden=hidden)
+    drv, router = make_driver(c["rule"], c["init"], hidden=hidden, veto=bool(c.get("veto")))
     vec = drv.main.swv
     snaps = []
     if hidden:
